@@ -60,6 +60,9 @@ func ruleR2(c *Ctx, id string) {
 		R.Analysed[FuncName(fn)] = true
 		for _, call := range P.CallsIn(fn, dur) {
 			cal := P.Callees(call)[0]
+			if sc := staticCallee(call); sc != nil {
+				cal = sc // (the method behind a method value)
+			}
 			key := fmt.Sprintf("%s|calls %s", FuncName(fn), FuncName(cal))
 			if inServerPkg(fn) {
 				okFn := funcPkg(fn) == home && cp.durSeen[call]
